@@ -231,3 +231,7 @@ def c06_2(run):
     if not n:
         raise Inconclusive('vacuity: Prepare never includes')
     run.require_reached(*run.cur.reach)
+
+
+from obligations import c05 as _c05
+obligation('C06', 'C06-3 process_proposal accepts an executed block only if both commitments in the block equal the ones regenerated after executing its transactions')(_c05.c06_3)
